@@ -74,6 +74,14 @@ class G19(gen.Gen):
         if c == 7:
             v = r.pick(gen.REAL_LITS[:6])
             return S("data %s /%s/" % (nm(), v), "decl"), [v]
+        if r.chance(40):
+            e = self.ex("num", 1)
+            return S(r.pick(["parameter (%s = %s)" % (nm(), e), "integer, parameter :: %s = %s" % (nm(gen.INT_NAMES), e),
+                             "real :: %s(%s) = %s" % (nm(gen.ARR_NAMES), self.small_int(), e)]), "decl"), [e]
+        if r.chance(30):
+            return S(r.pick(["equivalence (%s, %s)" % (nm(), nm(gen.INT_NAMES)), "namelist /nl/ %s, %s" % (nm(), nm(gen.INT_NAMES)),
+                             "intrinsic sin, cos", "allocatable %s" % nm(gen.ARR_NAMES), "target %s" % nm(),
+                             "pointer %s" % nm(gen.OBJ_NAMES), "implicit real (a-h, o-z)", "optional %s" % nm()]), "decl"), []
         return S(r.pick(["save", "external %s" % nm(gen.FUN_NAMES), "logical %s" % nm(gen.LOG_NAMES),
                          "complex %s" % nm(), "integer, dimension(3) :: %s" % nm(gen.ARR_NAMES)]), "decl"), []
 
@@ -105,6 +113,35 @@ class G19(gen.Gen):
         if c == 11:
             return S("open(unit = 10, file = %s)" % r.pick(["'f.txt'", '"d/x.dat"']), "open"), []
         lab = ctx["target"]()
+        c = r.n(0, 11)
+        if c == 0:
+            e = self.ex("num", 2)
+            return S("go to (%s, %s)%s %s" % (lab, ctx["target"](), r.pick([",", ""]), e), "computed_goto"), [e]
+        if c == 1:
+            e = self.ex("num", 2)
+            return S("if (%s) %s, %s, %s" % (e, lab, ctx["target"](), lab), "arith_if"), [e]
+        if c == 2:
+            cnd, e = self.ex("log", 1), self.ex("num", 1)
+            return S("if (%s) go to (%s, %s), %s" % (cnd, lab, lab, e), "if_stmt"), [cnd, e]
+        if c == 3:
+            e = self.ex("num", 1)
+            return S("allocate(%s(%s), stat = ios)" % (self.name(gen.ARR_NAMES), e), "allocate"), [e]
+        if c == 4:
+            return S(r.pick(["close(unit = 10)", "rewind 10", "backspace(unit = 10, iostat = ios)", "endfile 10",
+                             "inquire(unit = 10, exist = ok)", "deallocate(%s)" % self.name(gen.ARR_NAMES),
+                             "nullify(%s)" % self.name(gen.OBJ_NAMES)]), "simple"), []
+        if c == 5:
+            e1, e2 = self.ex("num", 1), self.ex("chr", 1)
+            return S("write(6, '(a, i3)') %s, %s" % (e2, e1), "write"), [e1, e2]
+        if c == 6:
+            e = "%s(%s)" % (self.name(gen.ARR_NAMES), self.ex("num", 1))
+            return S("%s => %s" % (self.name(gen.OBJ_NAMES), e), "ptr_assign"), [e]
+        if c == 7:
+            e = self.ex("num", 1)
+            return S("read(5, *, err = %s, end = %s) %s(%s)" % (lab, lab, self.name(gen.ARR_NAMES), e), "read"), [e]
+        if c == 8:
+            e = self.ex("num", 1)
+            return S("call %s(%s, key = %s)" % (self.name(gen.SUB_NAMES), self.name(gen.NUM_NAMES[:4]), e), "call"), [e]
         return S("go to %s" % lab, "goto"), []
 
     def item(self, ctx, depth):
